@@ -4,6 +4,7 @@ package main
 
 import (
 	"fmt"
+	"net/http"
 	"time"
 
 	"github.com/thushan/olla/internal/adapter/discovery"
@@ -74,5 +75,84 @@ func ereal() {
 			violate("probe-not-given-up-at-timeout", map[string]any{"part": "E-real"}, fmt.Sprintf("%s: the check took %s", cell, took.Round(10*time.Millisecond)), map[string]any{"engine": "stack", "part": "E-real", "cell": cell})
 		}
 		be.Close()
+	}
+}
+
+// E-real siblings - several endpoints behind one host:port (a gateway that exposes engines under path prefixes).
+//
+// The production checker shares one transport between all endpoints; what it limits per host it limits for all of
+// them together. n endpoints on one listener, every subset of them with a health URL that accepts the connection and
+// never answers: a periodic round (all due endpoints at once, as the ticker loop runs it) must reach every endpoint
+// whose health URL answers and mark it healthy, and mark the silent ones offline.
+func erealSiblings() {
+	if report.Shard != 5%report.NShards {
+		return
+	}
+	vclock.SetReal()
+	ns := []int{3}
+	if report.Thorough() {
+		ns = []int{3, 4}
+	}
+	for _, n := range ns {
+		for mask := 0; mask < 1<<uint(n); mask++ {
+			if mask == 1<<uint(n)-1 {
+				continue // nobody answers: nothing to reach
+			}
+			if report.Expired() {
+				res.NotExhaustive("E-real siblings: time budget")
+				return
+			}
+			ln := stack.ListenOwn()
+			stop := make(chan struct{})
+			srv := &http.Server{Handler: http.HandlerFunc(func(w http.ResponseWriter, r *http.Request) {
+				var i int
+				if k, _ := fmt.Sscanf(r.URL.Path, "/e%d/health", &i); k == 1 && mask&(1<<uint(i)) != 0 {
+					select {
+					case <-r.Context().Done():
+					case <-stop:
+					}
+					return
+				}
+				w.WriteHeader(200)
+			})}
+			go srv.Serve(ln)
+			repo := discovery.NewStaticEndpointRepositoryWithFactory(sharedFactory())
+			var cfgs []config.EndpointConfig
+			for i := 0; i < n; i++ {
+				p := 100
+				cfgs = append(cfgs, config.EndpointConfig{URL: fmt.Sprintf("http://%s/e%d", ln.Addr().String(), i), Name: fmt.Sprintf("E%d", i), Type: "openai-compatible", Priority: &p,
+					HealthCheckURL: "/health", ModelURL: "/v1/models", CheckInterval: 5 * time.Second, CheckTimeout: 1500 * time.Millisecond})
+			}
+			if err := repo.LoadFromConfig(ctx, cfgs); err != nil {
+				res.Break("E-real siblings: configuration rejected: %v", err)
+				close(stop)
+				srv.Close()
+				return
+			}
+			hc := health.NewHTTPHealthCheckerWithDefaults(repo, lg)
+			hc.VerifPeriodicRound(ctx)
+			all, _ := repo.GetAll(ctx)
+			got := map[string]string{}
+			for _, e := range all {
+				got[e.Name] = string(e.Status)
+			}
+			cell := fmt.Sprintf("E-real siblings: %d endpoints behind one host:port, health URLs silent for mask %0*b, check_timeout 1.5s", n, n, mask)
+			res.Add("traces_validated_against_impl", 1)
+			res.Add("transitions", int64(n))
+			res.SetAdd("states", fmt.Sprintf("%s|%v", cell, got))
+			for i := 0; i < n; i++ {
+				want := "healthy"
+				if mask&(1<<uint(i)) != 0 {
+					want = "offline"
+				}
+				if g := got[fmt.Sprintf("E%d", i)]; g != want {
+					violate("status", map[string]any{"part": "E-real-siblings", "expected": want}, fmt.Sprintf("%s: E%d is %s after the round, the statement requires %s (all: %v)", cell, i, g, want, got),
+						map[string]any{"engine": "stack", "part": "E-real-siblings", "cell": cell})
+					break
+				}
+			}
+			close(stop)
+			srv.Close()
+		}
 	}
 }
